@@ -10,7 +10,8 @@ MC_Menu == <<
   << <<"leaf", TRUE>>, <<"op", <<Lc(1), S(2)>>, "mul">>, <<"op", <<Lc(2)>>, "relu">>, <<"bp", Lc(3)>> >>,        \* private graph over the shared untracked tensor, back-propagated
   << <<"op", <<S(1)>>, "sigmoid">>, <<"op", <<Lc(1), S(2)>>, "mse">>, <<"rand">>, <<"op", <<S(1), Lc(3)>>, "mul">> >>, \* activation + loss on the parameter, a random constructor
   << <<"leaf", TRUE>>, <<"op", <<Lc(1), Lc(1)>>, "mul">>, <<"bp", Lc(2)>>, <<"reset", Lc(1), TRUE>>, <<"op", <<Lc(1), S(2)>>, "matmul">>, <<"bp", Lc(3)>> >>,  \* train-like private loop
-  << <<"op", <<S(1)>>, "transpose">>, <<"op", <<Lc(1), S(2)>>, "concat">>, <<"op", <<Lc(2)>>, "softmax">>, <<"op", <<S(1)>>, "fc">>, <<"op", <<Lc(4), S(2)>>, "bce">>, <<"op", <<S(2)>>, "slice">> >>   \* shape ops, a SHARED layer object, a loss
+  << <<"op", <<S(1)>>, "transpose">>, <<"op", <<Lc(1), S(2)>>, "concat">>, <<"op", <<Lc(2)>>, "softmax">>, <<"op", <<S(1)>>, "fc">>, <<"op", <<Lc(4), S(2)>>, "bce">>, <<"op", <<S(2)>>, "slice">> >>,  \* shape ops, a SHARED layer object, a loss
+  << <<"leaf", TRUE>>, <<"op", <<Lc(1), S(2)>>, "elmax">>, <<"op", <<Lc(2), S(2)>>, "concat">>, <<"bp", Lc(3)>> >>   \* the shared untracked tensor as a DIRECT operand of back-propagated operations
 >>
 (* the same plus a program that violates the proviso (back-propagates through the shared parameter) *)
 MC_MenuBad == MC_Menu \o << << <<"op", <<S(1), S(2)>>, "mul">>, <<"bp", Lc(1)>> >> >>
